@@ -319,6 +319,15 @@ pub struct ViolationRec {
     pub replay: String,
 }
 
+/// Keep a trace of failures that did not reproduce on a fresh lab (diagnostics only, never a verdict).
+pub fn note_flaky(id: &str, f: &Failure, case_json: &str) {
+    use std::io::Write;
+    let dir = shard::scratch_dir();
+    if let Ok(mut fh) = std::fs::OpenOptions::new().create(true).append(true).open(dir.join(format!("flaky-{id}.log"))) {
+        let _ = writeln!(fh, "{} :: {} :: {}", f.signature, f.message, case_json);
+    }
+}
+
 const MAX_SAMPLES: usize = 4;
 const MAX_SAMPLE_BYTES: usize = 6000;
 
